@@ -352,8 +352,8 @@ def obligations(tier):
                               shard_depth=5, budget_s=1500, classify=classify, require_reach=["finished"],
                               describe=f"brute force over conditional shape {s}"))
     if not q:
-        obs.append(Obligation("bruteforce-cond-8", make_bruteforce_body(["cond-8"], 1, outcomes=("complete", "fail")), setup, CODE,
-                              bounds=dict(shape="cond-8", leaves=7, splits=1, outcomes=2), shard_depth=7, budget_s=3000, classify=classify,
+        obs.append(Obligation("bruteforce-cond-8", make_bruteforce_body(["cond-8"], 1, outcomes=("complete",)), setup, CODE,
+                              bounds=dict(shape="cond-8", leaves=7, splits=1, outcomes=1), shard_depth=6, budget_s=3000, classify=classify,
                               require_reach=["finished"], describe="7-leaf conditional space"))
     obs.append(Obligation("bruteforce-strict", make_bruteforce_body(["flat-4", "deep-4", "single-root-3"] if q else ["flat-4", "deep-4", "single-root-3", "cond-5", "mixed-5"], 1, strict=True), setup, CODE,
                           bounds=dict(shapes=3 if q else 5, splits=1, outcomes=3, avoid_premature_stop=True),
